@@ -359,6 +359,15 @@ func s35Shapes(thorough bool) []s35Shape {
 		"sub-segments (type 0x34)":                   {seg(func(d *s35Desc) { d.typeID = 0x34; d.hasSub = true })},
 		"type 0x36 without sub-segments":             {seg(func(d *s35Desc) { d.typeID = 0x36 })},
 		"foreign, segmentation, foreign":             {{foreign: true, tag: 0x00, body: 3}, plain, {foreign: true, tag: 0x01, body: 0}},
+		// a rich descriptor followed by a plain and a cancelled one: nothing of the
+		// first may show in the later ones (seed C08i: one scratch value reused)
+		"sub-segmented component descriptor, then a plain and a cancelled one": {seg(func(d *s35Desc) {
+			d.programSeg = false
+			d.comps = 1
+			d.hasDuration = true
+			d.typeID = 0x34
+			d.hasSub = true
+		}), seg(func(d *s35Desc) { d.notRestricted = true }), seg(func(d *s35Desc) { d.cancel = true })},
 		"three descriptors of different shapes": {seg(func(d *s35Desc) { d.cancel = true }),
 			seg(func(d *s35Desc) {
 				d.programSeg = false
